@@ -202,9 +202,9 @@ func gen(out *vc.Out, r *vc.Rand, thorough bool) {
 		for cut := -1; cut < 3; cut++ {
 			emit(out, "", fmt.Sprintf("sp op w chunks 3 cut %d n %d rep %d %s", cut, n, 2*mul, ms()))
 		}
-		emit(out, "", fmt.Sprintf("sp op n chunks 0 cut -1 n %d rep %d %s", n, 20*mul, ms()))
+		emit(out, "", fmt.Sprintf("sp op z chunks 0 cut -1 n %d rep %d %s", n, 20*mul, ms()))
 	}
-	emit(out, "", fmt.Sprintf("sp op n chunks 0 cut -1 n 16 rep %d %s", 50*mul, ms()))
+	emit(out, "", fmt.Sprintf("sp op z chunks 0 cut -1 n 16 rep %d %s", 50*mul, ms()))
 
 	// brg: closers × started or not × byte counts
 	brgSets := [][]string{{"c"}, {"c", "c"}, {"c", "c", "c", "c"}, {"e"}, {"f"}, {"c", "e"}, {"c", "f", "e"}, {"e", "f"}}
@@ -232,7 +232,7 @@ func main() {
 	out := vc.NewOut()
 	// warm-up: lazily started process-wide goroutines must exist before any baseline
 	exec("tun init 1 role 0 tgt 1 cl 1 c0 rep 1 ms 0")
-	exec("sp op n chunks 0 cut -1 n 1 rep 1 ms 0")
+	exec("sp op z chunks 0 cut -1 n 1 rep 1 ms 0")
 	exec("brg b 1 1 start 1 cl 1 c rep 1 ms 0")
 	for _, f := range flag.Args() {
 		replayFile(out, f)
